@@ -102,7 +102,8 @@ theorem unclaimed_request_gets_feature_not_implemented (exts : List Row) (s : St
     (hsess : s.phase = .session ∨ s.entry = .inject) (hreq : isReq s.type = true)
     (hnone : (chain exts s).handledBy = none) (hch : (chain exts s).sent = []) :
     dispatch exts s =
-      ⟨.fallback, [⟨.error .cancel .featureNotImplemented, .sender, true, s.entry != .stream⟩], false⟩ := by
+      { by_ := .fallback, sent := [⟨.error .cancel .featureNotImplemented, .sender, true, s.entry != .stream⟩],
+        other := (chain exts s).other } := by
   have hnresp := isReq_not_isResp hreq
   have ht : tableConsumes s = false := by simp [tableConsumes, hnresp]
   have hneg : (s.entry != .inject && decide (s.phase = .negotiating)) = false := by
@@ -151,38 +152,63 @@ theorem rowOf_mgr (m : Mgr) : (rowOf m).mgr = m ∧ m ∈ allMgrs := by cases m 
 
 /-! ## 5. Non-vacuity: the hypotheses above are met by concrete, non-trivial configurations -/
 
+private abbrev fni (e2ee : Bool) : Rep := ⟨.error .cancel .featureNotImplemented, .sender, true, e2ee⟩
+
 -- the default set at a version request from a stranger: every row good, one result reply
-example : (∀ r ∈ defaultSet, r.good ⟨.get, .other, .fresh, [⟨.query, .version, false⟩], false⟩ = true)
-    ∧ dispatch defaultSet ⟨.get, .other, .fresh, [⟨.query, .version, false⟩], false⟩
-      = ⟨.ext .version, [⟨.result, .sender, true⟩], false⟩ := by decide
--- nobody claims it: the fallback answers feature-not-implemented
-example : dispatch defaultSet ⟨.set, .ownOther, .absent, [⟨.other, .other, false⟩], false⟩
-      = ⟨.fallback, [⟨.error, .sender, true⟩], false⟩ := by decide
--- a response with an unknown id: reported upwards, nothing sent
-example : dispatch defaultSet ⟨.error, .other, .fresh, [⟨.query, .discoInfo, false⟩], false⟩
-      = ⟨.ext .discovery, [], false⟩ := by decide
+example : (∀ r ∈ defaultSet, r.good { type := .get, frm := .stranger, id := .fresh, kids := [⟨.query, .version, false, false⟩] } = true)
+    ∧ dispatch defaultSet { type := .get, frm := .stranger, id := .fresh, kids := [⟨.query, .version, false, false⟩] }
+      = ⟨.ext .version, [⟨.result, .sender, true, false⟩], false, 0⟩ := by decide
+-- nobody claims it: the fallback answers feature-not-implemented (hypotheses of unclaimed_request_*)
+example : dispatch defaultSet { type := .set, frm := .ownOther, id := .absent, kids := [⟨.other, .other, false, false⟩] }
+      = ⟨.fallback, [fni false], false, 0⟩
+    ∧ (chain defaultSet { type := .set, frm := .ownOther, id := .absent, kids := [⟨.other, .other, false, false⟩] })
+      = ⟨none, [], 0⟩ := by decide
+-- a response nobody waits for: reported upwards, nothing sent
+example : dispatch defaultSet { type := .error, frm := .other, id := .fresh, kids := [⟨.query, .discoInfo, false, false⟩] }
+      = ⟨.ext .discovery, [], false, 0⟩
+    ∧ dispatch defaultSet { type := .result, frm := .stranger, id := .fresh, kids := [] } = ⟨.fallback, [], false, 0⟩ := by decide
 -- a response to an outstanding request is consumed by the table before any extension
-example : dispatch defaultSet ⟨.result, .other, .table, [⟨.vCard, .vcard, false⟩], false⟩ = ⟨.table, [], false⟩ := by
-  decide
+example : dispatch defaultSet { type := .result, frm := .other, id := .table, kids := [⟨.vCard, .vcard, false, false⟩] }
+      = ⟨.table, [], false, 0⟩ := by decide
 -- garbage type, nobody claims it: stream error, no reply
-example : dispatch defaultSet ⟨.garbage, .other, .fresh, [], false⟩ = ⟨.rejected, [], true⟩ := by decide
+example : dispatch defaultSet { type := .garbage, frm := .other, id := .fresh, kids := [] } = ⟨.rejected, [], true, 0⟩ := by decide
 -- the first claiming extension decides: vCard manager before / after the archive manager
-example : (dispatch [rowOf .vcard, rowOf .archive] ⟨.result, .other, .fresh, [⟨.vCard, .vcard, false⟩, ⟨.chat, .archive, true⟩], false⟩).by_
+example : (dispatch [rowOf .vcard, rowOf .archive]
+      { type := .result, frm := .other, id := .fresh, kids := [⟨.vCard, .vcard, false, false⟩, ⟨.chat, .archive, true, false⟩] }).by_
       = .ext .vcard ∧
-    (dispatch [rowOf .archive, rowOf .vcard] ⟨.result, .other, .fresh, [⟨.vCard, .vcard, false⟩, ⟨.chat, .archive, true⟩], false⟩).by_
+    (dispatch [rowOf .archive, rowOf .vcard]
+      { type := .result, frm := .other, id := .fresh, kids := [⟨.vCard, .vcard, false, false⟩, ⟨.chat, .archive, true, false⟩] }).by_
       = .ext .archive := by decide
--- former defect cells now answered: vCard get from a stranger (fallback error), roster push from another own
--- resource (result addressed to it), IBB data echoed in an error (no reply), RPC call with a malformed name (error)
-example : dispatch defaultSet ⟨.get, .other, .fresh, [⟨.vCard, .vcard, false⟩], false⟩
-      = ⟨.fallback, [⟨.error, .sender, true⟩], false⟩ := by decide
-example : dispatch defaultSet ⟨.set, .ownOther, .fresh, [⟨.query, .roster, false⟩], false⟩
-      = ⟨.ext .roster, [⟨.result, .sender, true⟩], false⟩ := by decide
-example : dispatch [rowOf .transfer] ⟨.error, .other, .fresh, [⟨.data, .ibb, false⟩, ⟨.error, .other, false⟩], false⟩
-      = ⟨.fallback, [], false⟩ := by decide
-example : dispatch [rowOf .rpc] ⟨.set, .other, .fresh, [⟨.query, .rpc, false⟩], false⟩
-      = ⟨.ext .rpc, [⟨.error, .sender, true⟩], false⟩ := by decide
--- hypothesis of fallback_reply_shape
-example : (dispatch defaultSet ⟨.get, .none, .fresh, [⟨.other, .other, false⟩], false⟩).by_ = .fallback
-    ∧ (chain defaultSet ⟨.get, .none, .fresh, [⟨.other, .other, false⟩], false⟩).sent = [] := by decide
+-- former defect cells: vCard get from a stranger (fallback error), roster push from another own resource (result
+-- addressed to it), IBB data echoed in an error (no reply), RPC call with a malformed name (bad-request)
+example : dispatch defaultSet { type := .get, frm := .stranger, id := .fresh, kids := [⟨.vCard, .vcard, false, false⟩] }
+      = ⟨.fallback, [fni false], false, 0⟩ := by decide
+example : dispatch defaultSet { type := .set, frm := .ownOther, id := .fresh, kids := [⟨.query, .roster, false, false⟩] }
+      = ⟨.ext .roster, [⟨.result, .sender, true, false⟩], false, 0⟩ := by decide
+example : dispatch [rowOf .transfer]
+      { type := .error, frm := .other, id := .fresh, kids := [⟨.data, .ibb, false, false⟩, ⟨.error, .other, false, false⟩] }
+      = ⟨.fallback, [], false, 0⟩ := by decide
+example : dispatch [rowOf .rpc] { type := .set, frm := .other, id := .fresh, kids := [⟨.query, .rpc, false, false⟩] }
+      = ⟨.ext .rpc, [⟨.error .modify .badRequest, .sender, true, false⟩], false, 0⟩ := by decide
+-- stateful rows: an opened in-band job accepts its next data block and refuses a stranger's; a joined room
+-- consumes the permission list it asked for
+example : dispatch [rowOf .transferJobOpen]
+      { type := .set, frm := .other, id := .fresh, kids := [⟨.data, .ibb, true, true⟩] }
+      = ⟨.ext .transferJobOpen, [⟨.result, .sender, true, false⟩], false, 0⟩
+    ∧ dispatch [rowOf .transferJobOpen]
+      { type := .set, frm := .stranger, id := .fresh, kids := [⟨.data, .ibb, true, true⟩] }
+      = ⟨.ext .transferJobOpen, [⟨.error .cancel .itemNotFound, .sender, true, false⟩], false, 0⟩
+    ∧ dispatch [rowOf .mucRoom] { type := .result, frm := .other, id := .muc, kids := [⟨.query, .mucAdmin, false, false⟩] }
+      = ⟨.ext .mucRoom, [], false, 0⟩ := by decide
+-- the e2ee path: an encrypted unknown request is answered encrypted; an encrypted response is not answered;
+-- the blocking manager (new-style handler) answers a decrypted request in the clear
+example : dispatch defaultSet { type := .get, frm := .other, id := .fresh, kids := [⟨.query, .version, false, false⟩], entry := .e2ee }
+      = ⟨.fallback, [fni true], false, 0⟩
+    ∧ dispatch defaultSet { type := .error, frm := .other, id := .fresh, kids := [], entry := .e2ee } = ⟨.fallback, [], false, 0⟩
+    ∧ dispatch [rowOf .blockingSub] { type := .set, frm := .none, id := .fresh, kids := [⟨.block, .blocking, false, false⟩], entry := .e2ee }
+      = ⟨.ext .blockingSub, [⟨.result, .sender, true, false⟩], false, 0⟩ := by decide
+-- before the session: nothing is sent, the stream is closed (hypotheses of no_reply_before_session)
+example : dispatch defaultSet { type := .get, frm := .none, id := .fresh, kids := [⟨.query, .version, false, false⟩], phase := .negotiating }
+      = ⟨.negotiation, [], true, 0⟩ := by decide
 
 end Qx.C08
